@@ -100,7 +100,7 @@ GhostInit == [q2in |-> <<>>, unacked |-> <<>>, txed |-> <<>>, ackd |-> <<>>, pub
               seen |-> {}, connacks |-> <<>>, discd |-> {}, rm |-> <<>>, tam |-> <<>>, mps |-> <<>>,
               will |-> <<>>, pendw |-> <<>>, nowill |-> {}, willsent |-> {}, aliasOut |-> <<>>, aliasIn |-> <<>>,
               expm |-> <<>>, deadR |-> {}, deadI |-> {}, dsdel |-> <<>>, resentOn |-> {},
-              sdr |-> {}, rdr |-> {}, clob |-> <<>>, wipedw |-> {}, rpi |-> <<>>, subG |-> <<>>, optG |-> <<>>]
+              sdr |-> {}, rdr |-> {}, clob |-> <<>>, wipedw |-> {}, rpi |-> <<>>, subG |-> <<>>, optG |-> <<>>, stq |-> <<>>]
 
 (* ================================================================== publications of a step *)
 Qos2Open(c, pid) == pid \in Get(g.q2in, c, {})
@@ -450,6 +450,8 @@ AbnormalEndG(i, k) ==
        \/ (e.ev = "disconnect" /\ e.k = k /\ e.err = "" /\ e.a.rc = 4)
        \/ (e.ev = "connect" /\ e.err = "" /\ ConnackOK(e) /\ OldConnOf(i) = k)
 
+StalledClient(e, c) == \E n \in 1..Len(e.conns) : e.conns[n].c = c /\ e.conns[n].stalled /\ ~e.conns[n].done
+
 (* ================================================================== ghost update *)
 RECURSIVE ApplyPk(_, _, _, _)
 ApplyPk(U, pk, n, k) ==
@@ -574,6 +576,16 @@ GhostNextOf(i) ==
                                    THEN {k \in DOMAIN g.will : \E h \in Hooks(e) : h.h = "will_sent" /\ h.c = g.will[k].c /\ h.m # g.will[k].m}
                                    ELSE {}),
         rpi |-> IF isConn THEN Put(g.rpi, e.k, IF e.a.v = 5 THEN e.a.rpi ELSE -1) ELSE g.rpi,
+        \* messages accepted for a client whose connection had stopped reading (no copy on the wire yet, no drop reported):
+        \* they are due when it reads again
+        stq |-> [c0 \in ids |->
+                   IF e.ev = "stall" /\ e.a.kind = "off" /\ e.c = c0 THEN {}
+                   ELSE IF SessionEndsIn(i, c0) \/ ~StalledClient(e, c0) THEN {}
+                   ELSE Get(g.stq, c0, {}) \cup
+                        (IF IsPubStep(i) /\ Routed(i) /\ PubOf(i).m # "" /\ PubOf(i).qos = 0 /\ c0 \in PlainEntitled(i) /\ Online(Pre(i), c0)
+                            /\ ~Hooked(e, "dropped", c0, PubOf(i).m) /\ WireCopies(e, c0, PubOf(i).m) = 0
+                            /\ ~(c0 = PubOf(i).origin /\ \E s \in MatchingSubs(Subs(Pre(i)), PubOf(i).t) : s.c = c0 /\ s.nl)
+                         THEN {PubOf(i).m} ELSE {})],
         \* the options of the subscriptions of the current session according to the protocol history: client -> (filter
         \* string -> [qos requested, rap, nl, id]); the latest granted SUBSCRIBE of a filter replaces its options
         optG |-> [c0 \in ids |->
@@ -945,7 +957,10 @@ J_C34(i) ==
              wire == [n \in 1..Len(OutOf(e, k)) |-> ToString(OutOf(e, k)[n].t) \o ":" \o ToString(OutOf(e, k)[n].pid)] IN
          LET cid == IF HasConn(e.conns, k) THEN ConnRec(e.conns, k).c ELSE ""
              buffered == (HasClient(e.st, cid) /\ ClientRec(e.st, cid).outbuf > 0) \/ (HasClient(Pre(i), cid) /\ ClientRec(Pre(i), cid).outbuf > 0) IN
-         If(rep # wire /\ ~(HasConn(e.conns, k) /\ ConnRec(e.conns, k).dropped),
+         If(rep # wire /\ ~(HasConn(e.conns, k) /\ ConnRec(e.conns, k).dropped)
+              \* (a connection that is not being read is not quiescent: what is reported and what is written are compared
+              \*  again from the step after it resumed reading)
+              /\ ~(HasConn(e.conns, k) /\ ConnRec(e.conns, k).stalled) /\ ~(e.ev = "stall" /\ e.k = k),
             IF buffered THEN Cmp("C34.reported-sent-but-held-in-write-buffer", k, "", Len(rep) - Len(wire))
             ELSE Cmp("C34.reported-sent-differs-from-wire", k, "", Len(rep) - Len(wire)))),
       \* nothing is stranded in a write buffer at quiescence
@@ -954,10 +969,17 @@ J_C34(i) ==
       IF IsPubStep(i) /\ Routed(i) /\ PubOf(i).m # "" THEN
          LET p == PubOf(i) IN
          ForAll({d \in PlainEntitled(i) : Online(Pre(i), d) /\ ~Got(i, d, p.m) /\ ~Hooked(e, "dropped", d, p.m) /\ ~Hooked(e, "pid_exhausted", d, p.m)
+                                           /\ ~StalledClient(e, d)      \* (a client that does not read gets its copy, or a reported drop, later: next rule)
                                            /\ ~(d = p.origin /\ \E s \in MatchingSubs(Subs(Pre(i)), p.t) : s.c = d /\ s.nl)},
                 LAMBDA d : IF e.st.info.inflight_dropped > Pre(i).info.inflight_dropped THEN Cmp("C34.inflight-limit-drop-not-reported", d, p.m, 0)
                            ELSE IF Get(g.mps, ClientRec(Pre(i), d).k, 0) > 0 THEN Cmp("C34.oversize-drop-not-reported", d, p.m, 0)
                            ELSE Cmp("C34.unreported-drop", d, p.m, 0))
+      ELSE <<>>,
+      \* when a client that had stopped reading reads again, every message accepted for it meanwhile arrives
+      IF e.ev = "stall" /\ e.a.kind = "off" /\ e.err = "" THEN
+         ForAll({m \in Get(g.stq, e.c, {}) : WireCopies(e, e.c, m) = 0 /\ ~Hooked(e, "dropped", e.c, m)}, LAMBDA m :
+            IF Get(g.mps, e.k, 0) > 0 THEN Cmp("C34.oversize-drop-not-reported", e.c, m, 0)       \* (the size limit is applied when the packet is written)
+            ELSE Cmp("C34.unreported-drop-while-not-reading", e.c, m, 0))
       ELSE <<>>
     >>)
 
